@@ -288,6 +288,22 @@ Theorem C20_same_name_sort_order_refuted : exists l l' : list (N * name),
 Proof. exact same_name_sort_order_refuted. Qed.
 Print Assumptions C20_same_name_sort_order_refuted.
 
+(* distinct wire names always get distinct identifiers in the module, the testbench and the VCD,
+   whatever the wires are called (names that look like generated identifiers included) *)
+Theorem C20_src_identifiers_distinct : forall names, NoDup names ->
+  NoDup (map (varname (sanitize_all src_valid_verilog src_prefix_verilog (src_present_verilog names))) names)
+  /\ NoDup (map (varname (sanitize_all src_valid_testbench src_prefix_testbench (src_present_testbench names))) names)
+  /\ NoDup (map (varname (sanitize_all src_valid_vcd src_prefix_vcd (src_present_vcd names))) names).
+Proof. exact src_identifiers_distinct. Qed.
+Print Assumptions C20_src_identifiers_distinct.
+
+(* validity of a name is relative to the exporter's prefix: it cannot be shared between exporters *)
+Theorem C20_src_validity_is_per_prefix : exists s s',
+  src_valid_verilog s = true /\ src_valid_vcd s = false /\
+  src_valid_verilog s' = false /\ src_valid_vcd s' = true.
+Proof. exact src_validity_is_per_prefix. Qed.
+Print Assumptions C20_src_validity_is_per_prefix.
+
 (* the name a memory-write net is sorted by: injective in (enable, addr, data) if the source
    builds it from all three, else (enable only) two ports sharing an enable collide.  The
    statement is the branch selected by what _net_sorted says in /repo now. *)
